@@ -1,0 +1,63 @@
+// SPDX-FileCopyrightText: 2026 The Pion community <https://pion.ly>
+// SPDX-License-Identifier: MIT
+
+//go:build verif
+
+// Package verifhook holds test-only instrumentation points used by the
+// external runtime-verification harness. They are inert unless the module is
+// built with the "verif" tag and a sink is installed.
+package verifhook
+
+import "sync/atomic"
+
+type tickerSink func(owner any, tick func(), done <-chan struct{}) bool
+
+var (
+	tickerSinkPtr atomic.Pointer[tickerSink]        //nolint:gochecknoglobals
+	yieldPtr      atomic.Pointer[func(site string)] //nolint:gochecknoglobals
+)
+
+// Enabled reports whether the package was built with the verif tag.
+const Enabled = true
+
+// SetTickerSink installs (or with nil removes) the function that is offered
+// every periodic-tick closure.
+func SetTickerSink(f func(owner any, tick func(), done <-chan struct{}) bool) {
+	if f == nil {
+		tickerSinkPtr.Store(nil)
+
+		return
+	}
+	s := tickerSink(f)
+	tickerSinkPtr.Store(&s)
+}
+
+// TakeTicker offers the tick closure of a timer-driven goroutine to the sink.
+// When the sink accepts it, the calling goroutine parks until done is closed
+// and TakeTicker returns true: the harness now drives tick() itself.
+func TakeTicker(owner any, tick func(), done <-chan struct{}) bool {
+	s := tickerSinkPtr.Load()
+	if s == nil || !(*s)(owner, tick, done) {
+		return false
+	}
+	<-done
+
+	return true
+}
+
+// SetYield installs (or with nil removes) the scheduling callback.
+func SetYield(f func(site string)) {
+	if f == nil {
+		yieldPtr.Store(nil)
+
+		return
+	}
+	yieldPtr.Store(&f)
+}
+
+// Yield marks a window between two critical sections.
+func Yield(site string) {
+	if f := yieldPtr.Load(); f != nil {
+		(*f)(site)
+	}
+}
